@@ -21,7 +21,8 @@ Fixpoint frag1 (c : content) : bool :=
   end.
 Fixpoint frag (c : content) : bool :=
   match c with
-  | Numpy _ _ _ | Empty => true
+  | Numpy _ shape _ => match shape with [] => false | _ :: _ => true end
+  | Empty => true
   | ListOffset _ _ c' | ListA _ _ _ c' | Regular c' _ _ | Indexed _ _ c' | IndexedOption _ _ c'
   | ByteMasked _ _ c' | BitMasked _ _ _ _ c' | Unmasked c' | Par _ _ c' => frag c'
   | Union _ _ _ _ => false
@@ -623,3 +624,409 @@ Section Generic.
       + rewrite andb_false_r. reflexivity.
     - cbn [refines]. apply chars_check.
   Qed.
+
+  Lemma chunks_indep {A B} (vs : list A) (ws : list B) size zl ch :
+    chunks vs size zl = Ok ch -> zlen ws = zlen vs -> exists ch', chunks ws size zl = Ok ch' /\ zlen ch' = zlen ch.
+  Proof.
+    intros H Hz. pose proof (chunks_zlen _ _ _ _ H) as [Hs Hc]. unfold chunks in *.
+    destruct (size <? 0); [discriminate|]. destruct (size =? 0) eqn:E.
+    - destruct (zl <? 0) eqn:E2; [discriminate|]. eexists. split; [reflexivity|]. rewrite zlen_map, zlen_iota by lia. lia.
+    - eexists. split; [reflexivity|]. unfold zlen at 1. rewrite chunks_nat_length, Hz.
+      pose proof (zlen_nonneg vs). rewrite Z2Nat.id by (apply Z.div_pos; lia). lia.
+  Qed.
+
+  Definition ref_at (c : content) : Prop :=
+    forall d axis vs, Valid None c -> frag1 c = true -> 0 <= d -> to_list c = Ok vs ->
+      refines (MA None c d axis) (CA (type_of_p None c) d axis) (mapM (SV (type_of_p None c) d axis) vs).
+
+  Lemma model_axp_refines_all c : ref_at c.
+  Proof.
+    induction c as [dt shape data| |w o c IHc|w s e c IHc|c size zl IHc|w ix c IHc|w ix c IHc|m vw c IHc
+                   |m vw lsb n c IHc|c IHc|w t ix cs IHcs|cs ks n IHcs|arr rn c IHc] using content_ind';
+      intros d axis vs HV Hfr Hd Hl; pose proof HV as HV0; cbn [frag1] in Hfr.
+    - (* Numpy *)
+      destruct shape as [|x [|? ?]]; try discriminate.
+      apply refines_resolve. intros ax _. reflexivity.
+    - (* Empty *)
+      apply refines_resolve. intros ax _. cbn [model_body check_body type_of_p]. inversion Hl; subst. cbn [mapM].
+      destruct unk_ok.
+      + destruct Hunk as (c' & -> & Hc'). cbn [refines]. split; [reflexivity|]. exists []. split; [reflexivity|exact Hc'].
+      + rewrite Hunk. reflexivity.
+    - (* ListOffset *)
+      inversion HV; subst.
+      match goal with H : is_strk None = false -> Valid None c |- _ => specialize (H eq_refl); rename H into HVc end.
+      rewrite to_list_ListOffset in Hl. apply bind_Ok in Hl as (vs0 & Hl0 & Hl). apply rmap_Ok in Hl as (ls & Hcut & ->).
+      apply refines_resolve. intros ax _. cbn [type_of_p strflag model_body check_body].
+      destruct (ax =? d + 1) eqn:Eax.
+      + rewrite (mapM_ext_in _ _ _ (fun v _ => SB_list_at _ _ _ _ _ v Eax)).
+        eapply at_axis_none; [exact HV0|reflexivity|reflexivity|].
+        rewrite to_list_ListOffset, Hl0. cbn [bind]. rewrite Hcut. reflexivity.
+      + unfold cut in Hcut. destruct o as [|a o]; [discriminate|].
+        eapply below_list with (bs := pairs (a :: o)); [|exact Eax|exact Hcut|apply IHc; [assumption|assumption|lia|assumption]].
+        intros c' ws0 ls' Hc' _ Hls'. rewrite to_list_ListOffset, Hc'. cbn [bind]. unfold cut. rewrite Hls'. reflexivity.
+    - (* ListA *)
+      inversion HV; subst.
+      match goal with H : is_strk None = false -> Valid None c |- _ => specialize (H eq_refl); rename H into HVc end.
+      rewrite to_list_ListA in Hl. apply bind_Ok in Hl as (vs0 & Hl0 & Hl). apply rmap_Ok in Hl as (ls & Hcut & ->).
+      apply refines_resolve. intros ax _. cbn [type_of_p strflag model_body check_body].
+      destruct (ax =? d + 1) eqn:Eax.
+      + rewrite (mapM_ext_in _ _ _ (fun v _ => SB_list_at _ _ _ _ _ v Eax)).
+        eapply at_axis_none; [exact HV0|reflexivity|reflexivity|].
+        rewrite to_list_ListA, Hl0. cbn [bind]. rewrite Hcut. reflexivity.
+      + unfold cut2 in Hcut. destruct (zlen e <? zlen s) eqn:Ese; [discriminate|].
+        eapply below_list with (bs := zip s e); [|exact Eax|exact Hcut|apply IHc; [assumption|assumption|lia|assumption]].
+        intros c' ws0 ls' Hc' _ Hls'. rewrite to_list_ListA, Hc'. cbn [bind]. unfold cut2. rewrite Ese, Hls'. reflexivity.
+    - (* Regular *)
+      inversion HV; subst.
+      match goal with H : is_strk None = false -> Valid None c |- _ => specialize (H eq_refl); rename H into HVc end.
+      rewrite to_list_Regular in Hl. apply bind_Ok in Hl as (vs0 & Hl0 & Hl). apply rmap_Ok in Hl as (ch & Hch & ->).
+      apply refines_resolve. intros ax _. cbn [type_of_p strflag model_body check_body].
+      destruct (ax =? d + 1) eqn:Eax.
+      + rewrite (mapM_ext_in _ _ _ (fun v _ => SB_list_at _ _ _ _ _ v Eax)).
+        eapply at_axis_none; [exact HV0|reflexivity|reflexivity|].
+        rewrite to_list_Regular, Hl0. cbn [bind]. rewrite Hch. reflexivity.
+      + eapply below_list with (bs := map (fun i => (i * size, (i + 1) * size)) (iota (zlen ch)));
+          [|exact Eax|apply (chunks_as_cuts _ _ _ _ Hch)|apply IHc; [assumption|assumption|lia|assumption]].
+        intros c' ws0 ls' Hc' Hz Hls'. rewrite to_list_Regular, Hc'. cbn [bind].
+        destruct (chunks_indep vs0 ws0 size zl ch Hch Hz) as (ch' & Hch' & Hzc).
+        rewrite Hch'. cbn [rmap]. pose proof (chunks_as_cuts _ _ _ _ Hch') as Hc2. rewrite Hzc, Hls' in Hc2.
+        inversion Hc2; subst. reflexivity.
+    - (* Indexed *)
+      inversion HV; subst.
+      rewrite to_list_Indexed in Hl. apply bind_Ok in Hl as (vs0 & Hl0 & Hl).
+      cbn [type_of_p]. eapply refines_transparent with (M := fun ax => rmap (Indexed w ix) (MA None c d ax));
+        [exact Hd|reflexivity|reflexivity|].
+      intros ax _. eapply refines_rmap; [apply IHc; eassumption|].
+      intros c' ws0 Hc' HF.
+      destruct (gather_same_len vs0 ws0 ix) as [ws Hws]; [symmetry; apply (mapM_zlen _ _ _ HF)|eauto|].
+      exists ws. split.
+      + rewrite (mapM_gather_ok _ _ _ _ _ HF Hl). exact Hws.
+      + rewrite to_list_Indexed, Hc'. exact Hws.
+    - (* IndexedOption *)
+      inversion HV; subst.
+      rewrite to_list_IndexedOption in Hl. apply bind_Ok in Hl as (vs0 & Hl0 & Hl).
+      assert (Hnn : forall x, In x vs0 -> x <> VNone) by (eapply nonone_values; eassumption).
+      apply refines_resolve. intros ax _. cbn [type_of_p model_body check_body].
+      eapply (below_option (IndexedOption w ix) c _ d ax vs0 vs ix (fun i => 0 <=? i) (fun i => i));
+        [exact Hnn| |exact Hl|apply IHc; eassumption].
+      intros c' ws0 ws Hc' _ Hq. rewrite to_list_IndexedOption, Hc'. exact Hq.
+    - (* ByteMasked *)
+      inversion HV; subst.
+      rewrite to_list_ByteMasked in Hl. apply bind_Ok in Hl as (vs0 & Hl0 & Hl).
+      assert (Hnn : forall x, In x vs0 -> x <> VNone) by (eapply nonone_values; eassumption).
+      apply refines_resolve. intros ax _. cbn [type_of_p model_body check_body].
+      eapply (below_option (ByteMasked m vw) c _ d ax vs0 vs (zip (iota (zlen m)) m)
+                (fun im : Z * Z => Bool.eqb (negb (snd im =? 0)) vw) (fun im : Z * Z => fst im));
+        [exact Hnn| | |apply IHc; eassumption].
+      + intros c' ws0 ws Hc' _ Hq. rewrite to_list_ByteMasked, Hc'. cbn [bind]. rewrite <- Hq.
+        apply mapM_ext_in. intros [i b] _. reflexivity.
+      + rewrite <- Hl. apply mapM_ext_in. intros [i b] _. reflexivity.
+    - (* BitMasked *)
+      inversion HV; subst.
+      rewrite to_list_BitMasked in Hl. apply bind_Ok in Hl as (vs0 & Hl0 & Hl).
+      destruct (n <? 0) eqn:En; [discriminate|].
+      assert (Hnn : forall x, In x vs0 -> x <> VNone) by (eapply nonone_values; eassumption).
+      assert (Hbits : forall i, In i (iota n) -> exists b, bit_at m lsb i = Ok b).
+      { intros i Hi. destruct (mapM_Ok_In _ _ _ _ Hl Hi) as (y & Hy & _). destruct (bit_at m lsb i); [eauto|discriminate]. }
+      apply refines_resolve. intros ax _. cbn [type_of_p model_body check_body].
+      eapply (below_option (BitMasked m vw lsb n) c _ d ax vs0 vs (iota n)
+                (fun i => match bit_at m lsb i with Ok b => Bool.eqb b vw | Err _ => false end) (fun i => i));
+        [exact Hnn| | |apply IHc; eassumption].
+      + intros c' ws0 ws Hc' _ Hq. rewrite to_list_BitMasked, Hc'. cbn [bind]. rewrite En, <- Hq.
+        apply mapM_ext_in. intros i Hi. destruct (Hbits i Hi) as [b ->]. reflexivity.
+      + rewrite <- Hl. apply mapM_ext_in. intros i Hi. destruct (Hbits i Hi) as [b ->]. reflexivity.
+    - (* Unmasked *)
+      inversion HV; subst. rewrite to_list_Unmasked in Hl.
+      assert (Hnn : forall x, In x vs -> x <> VNone) by (eapply nonone_values; eassumption).
+      apply refines_resolve. intros ax _. cbn [type_of_p model_body check_body].
+      eapply refines_rmap; [apply IHc; eassumption|].
+      intros c' ws0 Hc' HF. exists ws0. split; [|rewrite to_list_Unmasked; exact Hc'].
+      apply (optF_nonone _ vs ws0 HF Hnn).
+    - discriminate.
+    - (* Record *)
+      inversion HV; subst.
+      rewrite to_list_Record in Hl. apply bind_Ok in Hl as (vss & Hvss & Hl). rewrite all_lists_mapM in Hvss.
+      destruct (n <? 0) eqn:En; [discriminate|].
+      apply frag1_all in Hfr.
+      apply refines_resolve. intros ax _. cbn [type_of_p model_body check_body].
+      assert (HF : Forall (fun x => forall vs, to_list x = Ok vs ->
+                     refines (MA None x d ax) (CA (type_of_p None x) d ax) (mapM (SV (type_of_p None x) d ax) vs)) cs).
+      { apply Forall_forall. intros x Hx col Hcol. rewrite Forall_forall in IHcs, Hfr.
+        match goal with H : Forall (Valid None) cs |- _ => rewrite Forall_forall in H; pose proof (H x Hx) as HVx end.
+        apply IHcs; auto. }
+      pose proof (rec_fields d ax cs vss HF Hvss) as HR.
+      destruct (mapM (fun x => MA None x d ax) cs) as [cs'|[]]; cbn [rmap refines] in *; try contradiction; try exact HR.
+      destruct HR as (Hchk & wss & Hwss & Hrel). split; [exact Hchk|].
+      destruct (mapM_square (row ks vss) (row ks wss)
+                  (recS (map (fun t => SV t d ax) (map (type_of_p None) cs))) (iota n) vs) as (ws & Hq & Hs); [|exact Hl|].
+      { intros i v _ Hr. eapply row_commute; eassumption. }
+      exists ws. split.
+      + rewrite <- Hs. apply mapM_ext_in. intros v _. cbn [spec_body].
+        destruct v; try reflexivity; cbn [recS]; rewrite ?rec_go_recF, ?tup_go_tupF; reflexivity.
+      + rewrite to_list_Record, all_lists_mapM, Hwss. cbn [bind]. rewrite En. exact Hq.
+    - (* Par *)
+      inversion HV; subst.
+      match goal with H : Valid arr c |- _ => rename H into HVc end.
+      destruct (Valid_param arr c HVc) as [-> | Es].
+      + rewrite to_list_Par in Hl. apply bind_Ok in Hl as (vs0 & Hl0 & Hl). inversion Hl; subst.
+        cbn [type_of_p]. eapply refines_transparent with (M := fun ax => MA None c d ax); [exact Hd|reflexivity|reflexivity|].
+        intros ax _. apply IHc; assumption.
+      + cbn [type_of_p]. eapply refines_transparent with (M := fun ax => MA arr c d ax); [exact Hd|reflexivity|reflexivity|].
+        intros ax _. eapply string_node; eassumption.
+  Qed.
+
+  Theorem model_axp_refines c d axis vs :
+    Valid None c -> frag1 c = true -> 0 <= d -> to_list c = Ok vs ->
+    refines (MA None c d axis) (CA (type_of c) d axis) (mapM (SV (type_of c) d axis) vs).
+  Proof. intros. apply model_axp_refines_all; assumption. Qed.
+End Generic.
+
+(* ---------------------------------------------------------------- [expand]: n-d leaves become RegularArray chains *)
+Lemma np_clen dt : forall dims n data, clen (np_regular dt n dims data) = n.
+Proof.
+  induction dims as [|d ds IH]; intros n data; cbn [np_regular clen]; [reflexivity|].
+  destruct (d =? 0) eqn:E; [reflexivity|]. rewrite IH. apply Z.div_mul. lia.
+Qed.
+Lemma np_type dt : forall dims n data p, p = None -> type_of_p p (np_regular dt n dims data) = numpy_ty dt dims.
+Proof.
+  induction dims as [|d ds IH]; intros n data p ->; cbn [np_regular type_of_p numpy_ty tl strflag]; [reflexivity|].
+  rewrite IH by reflexivity. reflexivity.
+Qed.
+Lemma np_frag1 dt : forall dims n data, frag1 (np_regular dt n dims data) = true.
+Proof. induction dims as [|d ds IH]; intros n data; cbn [np_regular frag1]; auto. Qed.
+Lemma np_valid dt : forall dims n data,
+  Forall (fun d => 0 <= d) dims -> 0 <= n -> zlen data = n * prodZ dims -> Valid None (np_regular dt n dims data).
+Proof.
+  induction dims as [|d ds IH]; intros n data Hd Hn Hz; cbn [np_regular].
+  - constructor; [exact I|discriminate|constructor; [exact Hn|constructor]|]. cbn in *. lia.
+  - inversion Hd; subst. constructor; [exact I|assumption|assumption|]. intros _.
+    apply IH; [assumption|nia|]. rewrite Hz, prodZ_cons. ring.
+Qed.
+Lemma np_to_list dt : forall dims n data,
+  Forall (fun d => 0 <= d) dims -> 0 <= n -> zlen data = n * prodZ dims ->
+  to_list (np_regular dt n dims data) = nest dims n (map (leaf dt) data).
+Proof.
+  induction dims as [|d ds IH]; intros n data Hd Hn Hz; cbn [np_regular nest].
+  - rewrite to_list_Numpy. cbn [existsb prodZ fold_right] in *. rewrite Z.mul_1_r in *.
+    destruct (n <? 0) eqn:E1; [lia|]. cbn [orb]. destruct (zlen data <? n) eqn:E2; [lia|].
+    cbn [nest]. rewrite take_all by lia. reflexivity.
+  - inversion Hd; subst. rewrite to_list_Regular, IH; [|assumption|nia|rewrite Hz, prodZ_cons; ring].
+    destruct (nest ds (n * d) (map (leaf dt) data)) as [inner|]; [|reflexivity]. cbn [bind].
+    destruct (chunks inner d n); reflexivity.
+Qed.
+
+Lemma clen_expand c : clen (expand c) = clen c.
+Proof.
+  induction c using content_ind'; cbn [expand clen]; try reflexivity; try assumption.
+  - destruct shape as [|n dims]; [reflexivity|]. apply np_clen.
+  - rewrite IHc. reflexivity.
+Qed.
+Lemma strip_expand_class c :
+  optionlike (expand c) = optionlike c /\ unionlike (expand c) = unionlike c.
+Proof.
+  induction c using content_ind'; try (split; reflexivity).
+  - destruct shape as [|n [|d ds]]; split; reflexivity.
+  - exact IHc.
+Qed.
+Lemma expand_not_par c : (forall a r x, c <> Par a r x) -> forall a r x, expand c <> Par a r x.
+Proof.
+  intros H a r x. destruct c; cbn [expand]; try discriminate.
+  - destruct shape as [|n [|d ds]]; discriminate.
+  - exfalso. eapply H. reflexivity.
+Qed.
+Lemma list_content_expand c cc : list_content c = Some cc -> list_content (expand c) = Some (expand cc).
+Proof. destruct c; try discriminate; cbn [list_content expand]; intros H; inversion H; reflexivity. Qed.
+Lemma ParamOk_expand p c : ParamOk p c -> ParamOk p (expand c).
+Proof.
+  destruct p as [[]|]; cbn [ParamOk]; auto;
+    intros (c' & rn & n & d & Hc & ->); apply list_content_expand in Hc; do 4 eexists; (split; [exact Hc|reflexivity]).
+Qed.
+
+Definition exp_ok (c : content) : Prop :=
+  forall p, Valid p c -> frag c = true ->
+  Valid p (expand c) /\ to_list (expand c) = to_list c /\ type_of_p p (expand c) = type_of_p p c /\ frag1 (expand c) = true.
+
+Lemma chars_expand k rn n dd :
+  let cc := Par (Some k) rn (Numpy DUInt8 [n] dd) in
+  to_list (expand cc) = to_list cc /\ type_of_p None (expand cc) = type_of_p None cc /\ frag1 (expand cc) = true.
+Proof.
+  cbn zeta. split; [|split; reflexivity].
+  cbn [expand np_regular]. rewrite !to_list_Par. f_equal. rewrite !to_list_Numpy.
+  cbn [existsb prodZ fold_right]. rewrite Z.mul_1_r. destruct (n <? 0) eqn:E1; [reflexivity|]. cbn [orb].
+  pose proof (zlen_nonneg dd).
+  destruct (zlen dd <? n) eqn:E2.
+  - rewrite take_all by lia. rewrite E2. reflexivity.
+  - rewrite zlen_take by lia. rewrite Z.ltb_irrefl. rewrite (take_all (take n dd)) by (rewrite zlen_take; lia). reflexivity.
+Qed.
+
+Lemma content_expand p c cc :
+  exp_ok cc -> ParamOk p c -> list_content c = Some cc -> (is_strk p = false -> Valid None cc) -> frag cc = true ->
+  to_list (expand cc) = to_list cc /\ type_of_p None (expand cc) = type_of_p None cc /\ frag1 (expand cc) = true /\
+  (is_strk p = false -> Valid None (expand cc)).
+Proof.
+  intros IH Hp Hc Hv Hfr. destruct (is_strk p) eqn:Es.
+  - destruct (ParamOk_str _ _ Hp Es) as (c' & k & rn & n & d & Hc' & -> & Hk). rewrite Hc in Hc'. inversion Hc'; subst.
+    destruct (chars_expand k rn n d) as (H1 & H2 & H3). repeat split; try assumption. discriminate.
+  - destruct (IH None (Hv eq_refl) Hfr) as (H1 & H2 & H3 & H4). repeat split; try assumption. intros _. exact H1.
+Qed.
+
+Lemma expand_ok_all c : exp_ok c.
+Proof.
+  induction c as [dt shape data| |w o c IHc|w s e c IHc|c size zl IHc|w ix c IHc|w ix c IHc|m vw c IHc
+                 |m vw lsb n c IHc|c IHc|w t ix cs IHcs|cs ks n IHcs|arr rn c IHc] using content_ind';
+    intros p HV Hfr; cbn [frag] in Hfr; inversion HV; subst;
+    try (match goal with Hp : ParamOk p _ |- _ => pose proof (ParamOk_expand _ _ Hp) as Hpe end).
+  - (* Numpy *)
+    match goal with Hp : ParamOk p _ |- _ => pose proof (ParamOk_nonlist _ _ Hp eq_refl); subst p end.
+    destruct shape as [|n dims]; [congruence|].
+    match goal with H : Forall _ (n :: dims) |- _ => rename H into Hs end. inversion Hs as [|? ? Hn Hds]; subst.
+    assert (Hz : zlen (take (prodZ (n :: dims)) data) = n * prodZ dims).
+    { rewrite zlen_take; [reflexivity|]. split; [apply prodZ_nonneg, Hs|assumption]. }
+    cbn [expand]. repeat split.
+    + apply np_valid; assumption.
+    + rewrite np_to_list by assumption. rewrite to_list_Numpy, (Forall_nonneg_existsb _ Hs).
+      destruct (zlen data <? prodZ (n :: dims)) eqn:E; [lia|]. reflexivity.
+    + apply np_type. reflexivity.
+    + apply np_frag1.
+  - repeat split; assumption.
+  - (* ListOffset *)
+    match goal with Hp : ParamOk p _, Hs : _ -> Valid None c |- _ =>
+      destruct (content_expand p _ c IHc Hp eq_refl Hs Hfr) as (X1 & X2 & X3 & X4) end.
+    cbn [expand]. repeat split.
+    + constructor; [exact Hpe|assumption|rewrite clen_expand; assumption|exact X4].
+    + rewrite !to_list_ListOffset, X1. reflexivity.
+    + cbn [type_of_p]. rewrite X2. reflexivity.
+    + exact X3.
+  - (* ListA *)
+    match goal with Hp : ParamOk p _, Hs : _ -> Valid None c |- _ =>
+      destruct (content_expand p _ c IHc Hp eq_refl Hs Hfr) as (X1 & X2 & X3 & X4) end.
+    cbn [expand]. repeat split.
+    + constructor; [exact Hpe|assumption|rewrite clen_expand; assumption|exact X4].
+    + rewrite !to_list_ListA, X1. reflexivity.
+    + cbn [type_of_p]. rewrite X2. reflexivity.
+    + exact X3.
+  - (* Regular *)
+    match goal with Hp : ParamOk p _, Hs : _ -> Valid None c |- _ =>
+      destruct (content_expand p _ c IHc Hp eq_refl Hs Hfr) as (X1 & X2 & X3 & X4) end.
+    cbn [expand]. repeat split.
+    + constructor; [exact Hpe|assumption|assumption|exact X4].
+    + rewrite !to_list_Regular, X1. reflexivity.
+    + cbn [type_of_p]. rewrite X2. reflexivity.
+    + exact X3.
+  - (* Indexed *)
+    destruct (IHc None) as (X1 & X2 & X3 & X4); [assumption..|]. destruct (strip_expand_class c) as [Ho _].
+    cbn [expand]. repeat split.
+    + constructor; [exact Hpe|rewrite clen_expand; assumption|rewrite Ho; assumption|exact X1].
+    + rewrite !to_list_Indexed, X2. reflexivity.
+    + cbn [type_of_p]. exact X3.
+    + exact X4.
+  - (* IndexedOption *)
+    destruct (IHc None) as (X1 & X2 & X3 & X4); [assumption..|]. destruct (strip_expand_class c) as [Ho _].
+    cbn [expand]. repeat split.
+    + constructor; [exact Hpe|rewrite clen_expand; assumption|rewrite Ho; assumption|exact X1].
+    + rewrite !to_list_IndexedOption, X2. reflexivity.
+    + cbn [type_of_p]. rewrite X3. reflexivity.
+    + exact X4.
+  - (* ByteMasked *)
+    destruct (IHc None) as (X1 & X2 & X3 & X4); [assumption..|]. destruct (strip_expand_class c) as [Ho _].
+    cbn [expand]. repeat split.
+    + constructor; [exact Hpe|rewrite clen_expand; assumption|rewrite Ho; assumption|exact X1].
+    + rewrite !to_list_ByteMasked, X2. reflexivity.
+    + cbn [type_of_p]. rewrite X3. reflexivity.
+    + exact X4.
+  - (* BitMasked *)
+    destruct (IHc None) as (X1 & X2 & X3 & X4); [assumption..|]. destruct (strip_expand_class c) as [Ho _].
+    cbn [expand]. repeat split.
+    + constructor; [exact Hpe|assumption|assumption|rewrite clen_expand; assumption|rewrite Ho; assumption|exact X1].
+    + rewrite !to_list_BitMasked, X2. reflexivity.
+    + cbn [type_of_p]. rewrite X3. reflexivity.
+    + exact X4.
+  - (* Unmasked *)
+    destruct (IHc None) as (X1 & X2 & X3 & X4); [assumption..|]. destruct (strip_expand_class c) as [Ho _].
+    cbn [expand]. repeat split.
+    + constructor; [exact Hpe|rewrite Ho; assumption|exact X1].
+    + rewrite !to_list_Unmasked. exact X2.
+    + cbn [type_of_p]. rewrite X3. reflexivity.
+    + exact X4.
+  - discriminate.
+  - (* Record *)
+    apply frag_all in Hfr.
+    match goal with H : Forall (Valid None) cs |- _ => rename H into HVs end.
+    assert (Hall : forall x, In x cs -> Valid None (expand x) /\ to_list (expand x) = to_list x /\
+                                      type_of_p None (expand x) = type_of_p None x /\ frag1 (expand x) = true).
+    { intros x Hx. rewrite Forall_forall in IHcs, HVs, Hfr. apply IHcs; auto. }
+    cbn [expand]. repeat split.
+    + constructor; [exact Hpe|assumption| | |].
+      * apply Forall_map. match goal with H : Forall (fun x => n <= clen x) cs |- _ => eapply Forall_impl; [|exact H] end.
+        cbv beta. intros x Hx. rewrite clen_expand. exact Hx.
+      * intros k Hk. rewrite map_length. auto.
+      * apply Forall_map. apply Forall_forall. intros x Hx. apply Hall, Hx.
+    + rewrite !to_list_Record, !all_lists_mapM, mapM_map.
+      rewrite (mapM_ext_in (fun x => to_list (expand x)) to_list cs); [reflexivity|]. intros x Hx. apply Hall, Hx.
+    + cbn [type_of_p]. f_equal. rewrite map_map. apply map_ext_in. intros x Hx. apply Hall, Hx.
+    + cbn [frag1]. apply frag1_all. apply Forall_map. apply Forall_forall. intros x Hx. apply Hall, Hx.
+  - (* Par *)
+    destruct (IHc arr) as (X1 & X2 & X3 & X4); [assumption..|].
+    cbn [expand]. repeat split.
+    + constructor; [apply expand_not_par; assumption|exact X1].
+    + rewrite !to_list_Par, X2. reflexivity.
+    + cbn [type_of_p]. exact X3.
+    + exact X4.
+Qed.
+
+Theorem expand_to_list c : Valid None c -> frag c = true -> to_list (expand c) = to_list c.
+Proof. intros HV Hf. apply (expand_ok_all c None HV Hf). Qed.
+Theorem expand_type_of c : Valid None c -> frag c = true -> type_of (expand c) = type_of c.
+Proof. intros HV Hf. apply (expand_ok_all c None HV Hf). Qed.
+Theorem expand_valid c : Valid None c -> frag c = true -> Valid None (expand c).
+Proof. intros HV Hf. apply (expand_ok_all c None HV Hf). Qed.
+Theorem expand_frag1 c : Valid None c -> frag c = true -> frag1 (expand c) = true.
+Proof. intros HV Hf. apply (expand_ok_all c None HV Hf). Qed.
+
+(* on 1-d leaves [expand] only trims the unused tail of the data buffer *)
+Lemma expand_1d dt n data : expand (Numpy dt [n] data) = Numpy dt [n] (take (prodZ [n]) data).
+Proof. reflexivity. Qed.
+
+(* ---------------------------------------------------------------- T4 *)
+Section T4.
+  Variable f : ty -> list value -> res value.
+  Variable g : option akind -> content -> res content.
+  Variable unk : res content.
+  Variables (unk_ok : bool) (fchk : ty -> bool) (str_ok : bool).
+  Hypothesis Hg : forall p c cc vs,
+    Valid p c -> list_content c = Some cc -> to_list c = Ok vs -> fchk (type_of cc) = true ->
+    (is_strk p = true -> str_ok = true) ->
+    exists c', g p c = Ok c' /\
+               to_list c' = mapM (fun v => match v with VList l => f (type_of cc) l | _ => Err EValue end) vs.
+  Hypothesis Hgchk : forall p c cc,
+    Valid p c -> list_content c = Some cc -> fchk (type_of cc) = false -> g p c = Err EValue.
+  Hypothesis Hf : forall t l, fchk t = true -> Forall (has_type t) l -> exists v, f t l = Ok v.
+  Hypothesis Hunk : if unk_ok then exists c', unk = Ok c' /\ to_list c' = Ok [] else unk = Err EValue.
+
+  Theorem model_ax_refines c axis vs :
+    Valid None c -> frag c = true -> to_list c = Ok vs ->
+    match model_ax g unk str_ok c axis with
+    | Ok c' => spec_ax f unk_ok fchk str_ok (type_of c) axis vs = to_list c'
+    | Err EValue => spec_ax f unk_ok fchk str_ok (type_of c) axis vs = Err EValue
+    | Err _ => False
+    end.
+  Proof.
+    intros HV Hfr Hl. unfold model_ax, spec_ax.
+    pose proof (model_axp_refines f g unk unk_ok fchk str_ok Hg Hgchk Hf Hunk (expand c) 0 axis vs
+                  (expand_valid c HV Hfr) (expand_frag1 c HV Hfr) (Z.le_refl 0)) as H.
+    rewrite (expand_to_list c HV Hfr), (expand_type_of c HV Hfr) in H. specialize (H Hl).
+    destruct (model_axp g unk str_ok None (expand c) 0 axis) as [c'|[]]; cbn [refines] in H; try contradiction.
+    - destruct H as (Hc & ws & Hs & Ht). rewrite Hc. cbn [bind]. rewrite Hs, Ht. reflexivity.
+    - rewrite H. reflexivity.
+  Qed.
+
+  (* the same as one equation between observations *)
+  Definition obs (r : res content) : res (list value) := match r with Ok c' => to_list c' | Err e => Err e end.
+  Corollary model_ax_obs c axis vs :
+    Valid None c -> frag c = true -> to_list c = Ok vs ->
+    obs (model_ax g unk str_ok c axis) = spec_ax f unk_ok fchk str_ok (type_of c) axis vs.
+  Proof.
+    intros HV Hfr Hl. pose proof (model_ax_refines c axis vs HV Hfr Hl) as H.
+    destruct (model_ax g unk str_ok c axis) as [c'|[]]; cbn [obs]; try contradiction; symmetry; exact H.
+  Qed.
+End T4.
